@@ -18,7 +18,7 @@ from harness.core import Corr, Disagreement, Failure, coq_eval, zlit, listlit
 ID = 'C24'
 SRC = 'hail/python/hailtop/utils/rate_limiter.py'
 COQ_PROPS = 'theories/RateLimiter/Props_C24.v'
-READY = False
+READY = True
 META = dict(
     design_ref='§5.C C24',
     technique='Coq proof (invariant induction over arbitrary action lists) about a hand-written executable model of RateLimiter.__aenter__; '
@@ -140,10 +140,10 @@ def all_schedules(ctx):
     for c in (1, 2, 3):
         out += [(f'exhaustive count{c} window4 steps1,3,4', {'count': c, 'window': 4, 'acts': a})
                 for a in enum_schedules(c, 4, c + 3, d if c < 3 else d - 1, [1, 3, 4])]
-    for k in range(ctx.scale(500, 5000)):
+    for k in range(ctx.scale(300, 4000)):
         c = ctx.rng.choice([1, 1, 2, 3, 5, 10])
         w = ctx.rng.choice([1, 4, 4, 8, 12, 240])
-        out.append(('random', random_schedule(ctx.rng, c, w, ctx.rng.choice([15, 40, 80, 200 if k % 10 == 0 else 50]))))
+        out.append(('random', random_schedule(ctx.rng, c, w, ctx.rng.choice([15, 40, 80, ctx.scale(100, 200) if k % 10 == 0 else 50]))))
     return out
 
 
@@ -168,8 +168,9 @@ def fingerprint(trace):
         xs = [o['now'], len(o['items'])] + list(o['items']) + [len(o['waiters'])]
         for i, t in sorted(o['waiters']):
             xs += [i, t if t is not None else -1]
-        xs.append(len(o['adm']))
-        for i, t in o['adm']:
+        last = o['adm'][-1:]
+        xs += [len(o['adm']), len(last)]
+        for i, t in last:
             xs += [i, t]
         for x in xs:
             h = (h * 131 + x + 7) & _P
@@ -192,8 +193,16 @@ def encode(acts):
 
 
 def model_fingerprints(ctx, schedules):
+    # interleave long and short schedules so that the shards cost about the same
     exprs = [f'fingerprint {zlit(s["window"])} {zlit(s["count"])} (decode {len(s["acts"])} {encode(s["acts"])})' for s in schedules]
-    return coq_eval(ctx, HEADER, exprs, shard=max(500, len(exprs) // 6 + 1), label='fp')
+    order = sorted(range(len(exprs)), key=lambda k: -len(schedules[k]['acts']))
+    n_sh = 8
+    perm = [k for r in range(n_sh) for k in order[r::n_sh]]            # round-robin by decreasing length
+    vals = coq_eval(ctx, HEADER, [exprs[k] for k in perm], shard=(len(exprs) + n_sh - 1) // n_sh, label='fp')
+    out = [None] * len(exprs)
+    for k, v in zip(perm, vals):
+        out[k] = v
+    return out
 
 
 def model_traces(ctx, schedules):
